@@ -75,7 +75,7 @@ def load_metadata(username="master"):
             }
 
     # Immediately check for topological order.
-    check_topological_sort()
+    check_topological_sort(username)
 
 def check_topological_sort(username="master"):
     """For the given user, check the import relations have no cycles."""
@@ -123,6 +123,9 @@ def get_import_order(filenames, username="master"):
         if name in depend_list:
             return
         else:
+            if name not in theory_cache[username]:
+                # File created after the metadata was loaded
+                load_theory_cache(name, username)
             for import_name in theory_cache[username][name]['imports']:
                 dfs(import_name)
             depend_list.append(name)
@@ -141,12 +144,26 @@ def load_theory_cache(filename, username="master"):
     if username not in theory_cache:
         load_metadata(username)
 
+    if not os.path.exists(user_file(filename, username)):
+        # The file was never there or has been removed
+        theory_cache[username].pop(filename, None)
+        raise TheoryException("Theory %s not found" % filename)
+
+    if filename not in theory_cache[username]:
+        # File created after the metadata was loaded
+        theory_cache[username][filename] = dict()
+
     cache = theory_cache[username][filename]
     timestamp = os.path.getmtime(user_file(filename, username))
 
     if 'timestamp' in cache and timestamp == cache['timestamp']:
         # No need to update cache
         return cache
+
+    # The file is new or has changed: its imports and description may have changed as well
+    data = load_json_data(filename, username)
+    cache['imports'] = data['imports']
+    cache['description'] = data['description']
 
     # Load all required macros and methods for this file.
     # Make table for this later. Some of these modules load theories when
